@@ -273,6 +273,61 @@ def h_reference(env, n_mos, ne, spin, frozen, mapping, utd):
     env.check_eq(val, e_mf, f"<ref|H_qubit|ref> == mean-field energy expression [{mapping}, up_then_down={utd}, frozen={frozen}]")
 
 
+AUX_MOLS = {
+    "H4_singlet": dict(xyz="H4", q=0, spin=0, frozen=None, uhf=False),
+    "H4_triplet_fv3": dict(xyz="H4", q=0, spin=2, frozen=[3], uhf=False),
+    "H4+_doublet_fo0": dict(xyz="H4", q=1, spin=1, frozen=[0], uhf=False),
+    "H4_interior_f1": dict(xyz="H4", q=0, spin=0, frozen=[1], uhf=False),
+    "LiH_triplet_fo0": dict(xyz="LiH", q=0, spin=2, frozen=[0], uhf=False),
+    "H4+_uhf_f": dict(xyz="H4", q=1, spin=1, frozen=[[0], [0]], uhf=True),
+}
+_XYZ = {"H4": [("H", (0.0, 0.0, 0.0)), ("H", (0.0, 0.0, 0.9)), ("H", (0.0, 0.8, 1.9)), ("H", (0.3, 0.0, 2.9))],
+        "LiH": [("Li", (0.0, 0.0, 0.0)), ("H", (0.0, 0.0, 1.6))]}
+
+
+def h_aux_fci(env, key, mapping, utd):
+    """AUXILIARY concrete shape (no solver role; PySCF + numpy eigensolver are numeric): for a real molecule the lowest
+    eigenvalue of the qubit Hamiltonian in the (N, Sz) sector equals the classical FCI energy with the same frozen orbitals,
+    and the reference circuit's expectation equals the mean-field energy PySCF reports (1e-6)."""
+    from tangelo import SecondQuantizedMolecule
+    from tangelo.algorithms.classical import FCISolver
+    from tangelo.toolboxes.qubit_mappings.mapping_transform import fermion_to_qubit_mapping
+    from tangelo.toolboxes.qubit_mappings.statevector_mapping import get_reference_circuit, get_mapped_vector
+    from openfermion import get_sparse_operator
+    spec = AUX_MOLS[key]
+    with shim.concrete_mode():
+        m = SecondQuantizedMolecule(_XYZ[spec["xyz"]], q=spec["q"], spin=spec["spin"], basis="sto-3g", frozen_orbitals=spec["frozen"], uhf=spec["uhf"])
+        n, ne, sp = m.n_active_sos, m.n_active_electrons, m.active_spin
+        qH = fermion_to_qubit_mapping(m.fermionic_hamiltonian, mapping, n_spinorbitals=n, n_electrons=ne, up_then_down=utd, spin=sp)
+        nq = n - (2 if mapping.lower() == "scbk" else 0)
+        M = get_sparse_operator(qH, n_qubits=nq).toarray()
+        # sector basis states = images of determinants with (n_alpha, n_beta)
+        na, nb = (ne + sp) // 2, (ne - sp) // 2
+        idxs = set()
+        for f in itertools.product((0, 1), repeat=n):
+            if sum(f[0::2]) == na and sum(f[1::2]) == nb:
+                v = get_mapped_vector(np.array(f), mapping, utd)
+                idxs.add(int("".join(str(int(b)) for b in v), 2))
+        idxs = sorted(idxs)
+        sub = M[np.ix_(idxs, idxs)]
+        e_sector = float(np.linalg.eigvalsh(sub)[0])
+        circ = get_reference_circuit(n, ne, mapping, up_then_down=utd, spin=sp)
+        st = np.zeros(2 ** nq, dtype=complex)
+        bits = ["0"] * nq
+        for g in circ._gates:
+            bits[g.target[0]] = "1"
+        st[int("".join(bits), 2)] = 1
+        e_ref = float((st.conj() @ M @ st).real)
+        e_mf = float(m.mf_energy)
+        e_fci = None
+        if not spec["uhf"]:
+            e_fci = float(FCISolver(m).simulate())
+    env.check_true(abs(e_ref - e_mf) < 1e-6, f"<ref|H|ref> == mean-field energy of PySCF [{key}, {mapping}, utd={utd}]", detail=f"{e_ref} vs {e_mf}")
+    if e_fci is not None:
+        env.check_true(abs(e_sector - e_fci) < 1e-6, f"lowest (N, Sz)-sector eigenvalue == FCISolver energy [{key}, {mapping}, utd={utd}]",
+                       detail=f"{e_sector} vs {e_fci}")
+
+
 def shapes(tier, seed):
     out = []
     part = [(3, 2, 0, None, False), (3, 4, 0, 1, False), (4, 4, 0, [0, 3], False), (4, 4, 0, [1, 2], False),
@@ -295,6 +350,11 @@ def shapes(tier, seed):
         out.append(Shape(f"folding_uhf/n{n}e{ne}s{sp}/{fr}", h_folding_uhf, dict(n_mos=n, ne=ne, spin=sp, frozen=fr), modules=MODS, max_paths=8))
     out.append(Shape("canary/folding_uhf", h_folding_uhf, dict(n_mos=3, ne=3, spin=1, frozen=[[0], [1]], canary=True), modules=MODS, canary=True, max_paths=8))
     out.append(Shape("canary/folding", h_folding, dict(n_mos=3, ne=4, spin=0, frozen=[0], canary=True), modules=MODS, canary=True, max_paths=8))
+    for key in AUX_MOLS:
+        for mp, utd in ((("jw", False), ("bk", True)) if tier == "quick" else (("jw", False), ("jw", True), ("bk", False), ("bk", True), ("scbk", False), ("jkmn", True))):
+            if key.startswith("LiH") and (mp, utd) != ("jw", False):
+                continue
+            out.append(Shape(f"aux/fci_sector/{key}/{mp}/utd={int(utd)}", h_aux_fci, dict(key=key, mapping=mp, utd=utd), modules=()))
     refs = [(2, 2, 0, None), (3, 4, 0, [0]), (3, 2, 0, [2]), (3, 2, 0, [1])]
     if tier == "thorough":
         refs += [(3, 3, 1, [0]), (3, 2, 0, None), (4, 4, 0, [0, 3])]
